@@ -438,7 +438,7 @@ package service
 //@ func MinerManager.RemoveMiner
 //@   option trusted
 //@   ensures ghost(mstake) == @store(old(ghost(mstake)), old(bytes(id)), Z(left))
-//@   modifies ghost(mstake), ghost(stver)
+//@   modifies ghost(mstake), ghost(mrec), ghost(stver)
 
 //@ func RefundManager.getRefundHeight
 //@   option trusted
@@ -456,4 +456,4 @@ package service
 //@   ensures [all]       result3 == nil && money == 18446744073709551615 ==> @select(ghost(mstake), old(bytes(minerId))) == 0
 //@   ensures [owner]     result3 == nil ==> bytes(result2) == old(bytes(account))
 //@   ensures [others]    forall k Bytes :: k != old(bytes(minerId)) ==> @select(ghost(mstake), k) == old(@select(ghost(mstake), k))
-//@   modifies ghost(mstake), ghost(stver)
+//@   modifies ghost(mstake), ghost(mrec), ghost(stver)
